@@ -101,7 +101,14 @@ func checkSeqBagTranslate(c *mon.Case, rows gen.Rows, frame, code int, auto bool
 			c.Failf("SeqBag.Translate:unknown-code-accepted", "%s: no error for a genetic code that does not exist", ctx())
 		}
 		c.Count("outcome:unknown-code")
-		return
+		if err == nil {
+			return
+		}
+		// the refused call is followed by a call with a supported code on the same object: the property holds
+		// for every sequence the object holds, whatever was asked of it before
+		code = ((code % 3) + 3) % 3
+		c.Count("outcome:supported-code-after-refused-call")
+		err = sb.Translate(frame, code)
 	}
 	want, empty := expectedTranslation(rows, frame, code)
 	if empty {
@@ -146,7 +153,14 @@ func checkAlignTranslate(c *mon.Case, rows gen.Rows, frame, code int) {
 			c.Failf("Alignment.Translate:unknown-code-accepted", "%s: no error for a genetic code that does not exist", ctx())
 		}
 		c.Count("outcome:unknown-code")
-		return
+		if err == nil {
+			return
+		}
+		// the refused call is followed by a call with a supported code on the same object: the property holds
+		// for every sequence the object holds, whatever was asked of it before
+		code = ((code % 3) + 3) % 3
+		c.Count("outcome:supported-code-after-refused-call")
+		err = al.Translate(frame, code)
 	}
 	want, empty := expectedTranslation(rows, frame, code)
 	if empty {
@@ -838,6 +852,7 @@ func main() {
 	mon.SetNote("assumptions", "NCBI tables 1, 2, 5 typed twice (mon/c05/ref.go: table 1 + documented differences; lib/ref/gencode.go: three AAs strings) and compared with each other on every codon of the exhaustive sub-space;; a sequence holding a symbol goalign's alphabet detection does not accept as nucleotide (Z E J ! 1 @ 0xe9 0xff) is not a nucleotide sequence: a 'wrong alphabet' error or the residue X are both accepted;; GenAllPossibleCodons on a codon with a gap: empty slice (doc comment) or the expansions with '-' kept (implementation) are both accepted;; frame -1 (all three frames) reports an error as soon as one of the three frames of one sequence holds no residue (length < 5);; Alignment.Translate(-1): only residues, per-row lengths and row naming/order are demanded unless length mod 3 == 2 (ragged result = recorded finding of C01);; TranslateByReference with fewer than 3 columns from the frame offset: an error or rows without residues are both accepted; with gaps only the stated relations are demanded (no error, same names and order, rectangular, reference row without gaps is a prefix of the translation of the ungapped reference), frame 0 only; frame -1 is not called on TranslateByReference (outside the statement; it panics, see report);; CodonAlign: nucleotide sequences are gap-free (a '---' codon would translate to a gap column of its own); the alphabet of the protein alignment is set to amino acids by the harness;; state of a container after a reported error is not examined;; the alphabet recorded in a container after translation is not examined;; command line: --phase above 2 is read as 'number of characters to drop' (usage text) but a refusal is accepted too; --ref-seq with --phase -1 is not documented: any outcome but a crash is accepted; a file with a letter that is no nucleotide code (E F I L P Q Z): the documented error, or X for the codon; what is left in the output file after a refusal is not examined; Phylip input of --phase -1 is generated with length mod 3 == 2 (ragged three frame result = recorded finding of C01); a Phylip alignment without columns is written as its header only; global reading options (--input-strict, --ignore-identical, --alphabet, -x/-u/-k input) belong to C02/C03 and are not driven here")
 	mon.SetNote("exhaustive_subspaces", fmt.Sprintf("codon: 3 genetic codes x %d^3 = %d symbol triples (= %d codon evaluations, the floor 'codon:evaluated' is that exact number) are enumerated completely at BOTH tiers, %d cases of %d codons each; every triple is translated alone (Sequence.Translate frame 0), expanded (GenAllPossibleCodons) and, for the 40 nucleotide-compatible symbols, translated inside a longer sequence by Sequence/SeqBag/Alignment.Translate in frames 0, 1, 2 and -1", nSyms, nSyms*nSyms*nSyms, 3*nSyms*nSyms*nSyms, nCodonCases, nSyms))
 	mon.Floor("codon:evaluated", 3*nSyms*nSyms*nSyms)
+	mon.Floor("outcome:supported-code-after-refused-call", 1000)
 	for _, k := range []string{"plain", "ambiguous-unique", "ambiguous-X", "gap-full", "gap-partial", "unknown-symbol", "foreign-symbol"} {
 		mon.Floor("codon-class:"+k, 3)
 	}
